@@ -122,9 +122,14 @@ Multi ==
 \* (the same labels in another order, a subset, or with a label no file has)
 MultiRekey ==
   /\ ph = 0 /\ ph' = 1
-  /\ \E nf \in 2..3 : \E rk \in {"sorted", "reversed", "subset", "extra"} :
-       /\ in' = [NoIn EXCEPT !.fam = "multi", !.cfg = [nf |-> nf, rel |-> "pieces", axis |-> "x", align |-> FALSE, sort |-> FALSE, keys |-> TRUE, rekey |-> rk]]
-       /\ out' = [ok |-> TRUE, val |-> <<>>, err |-> ""]
+  /\ \/ \E nf \in 2..3 : \E rk \in {"sorted", "reversed", "subset", "extra"} :
+          /\ in' = [NoIn EXCEPT !.fam = "multi", !.cfg = [nf |-> nf, rel |-> "pieces", axis |-> "x", align |-> FALSE, sort |-> FALSE, keys |-> TRUE, rekey |-> rk]]
+          /\ out' = [ok |-> TRUE, val |-> <<>>, err |-> ""]
+     \* the joining axis is a dimension of the files that the read itself removes (indices = {x: label}, or only variables without x):
+     \* what is read has no x any more, so the pieces are stacked along a new axis x labelled by the keys
+     \/ \E nf \in 2..3 : \E rk \in {"dropx-index", "dropx-names"} : \E rel \in {"equal", "differ"} :
+          /\ in' = [NoIn EXCEPT !.fam = "multi", !.cfg = [nf |-> nf, rel |-> rel, axis |-> "x", align |-> FALSE, sort |-> FALSE, keys |-> TRUE, rekey |-> rk]]
+          /\ out' = [ok |-> TRUE, val |-> <<>>, err |-> ""]
 \* a 0-d variable on disk: only the empty index addresses it.  Any other index (a position, a label, a list, a slice with bounds,
 \* a dimension it does not have, two indices) is rejected as on the loaded array - and an assignment through it leaves the file as it was
 ZeroD ==
